@@ -20,7 +20,7 @@ TECHNIQUE = 'differential monitor source vs. defragmented copy through the real 
 RULE = ('sources from vlib.model.gen_file / build_file with scale graphs; non-trivial = source where some channel has data in >=2 segments, or '
         'contains an empty/untyped channel; distinct = per-segment signatures')
 ASSUMPTIONS = ['group and channel order of the copy is compared too (defragment writes them in source order)']
-REQUIRED = ['copy_props_compared_with_model', 'huge_sources', 'copy_compared_with_model', 'defragment_calls', 'channels_compared', 'props_compared', 'scaled_compared', 'dest:path', 'dest:stream', 'index:on', 'empty_or_untyped_channels',
+REQUIRED = ['dest:in-place', 'short_read_sources', 'copy_props_compared_with_model', 'huge_sources', 'copy_compared_with_model', 'defragment_calls', 'channels_compared', 'props_compared', 'scaled_compared', 'dest:path', 'dest:stream', 'index:on', 'empty_or_untyped_channels',
             'copies_strict_parsed']
 N = {'quick': 2400, 'thorough': 600000}
 
@@ -30,6 +30,10 @@ def gen_cases(tier, seed):
         yield {'s': seed * 1000003 + i, 'dest': 'stream' if i % 2 == 0 else 'path', 'index': i % 4 == 1, 'fam': 'huge'}
     for i in range(N[tier]):
         yield {'s': seed * 1000003 + i, 'dest': 'path' if i % 2 else 'stream', 'index': (i // 2) % 2 == 1, 'fam': 'scaled' if i % 4 == 3 else 'model'}
+    for i in range(N[tier] // 8):
+        yield {'s': seed * 1000003 + i, 'dest': 'in-place', 'index': i % 2 == 1, 'fam': 'model'}
+    for i in range(max(2, N[tier] // 200)):
+        yield {'s': seed * 1000003 + i, 'dest': 'stream', 'index': False, 'fam': 'huge', 'source': 'short-read-stream'}
 
 
 def shard_setup(ctx):
@@ -48,9 +52,12 @@ def build(case):
         t = rng.choice(['f64', 'i32', 'i16'])
         size = M.TYPES[t][2]
         big = (2 ** 24) // size + rng.choice([1, 12345, 100000])
-        chans = [('g', 'big', t, big, []), ('g', 'mib', 'f64', 2 ** 17, []), ('g', 'mib1', 'i32', 2 ** 18 + 1, []), ('g', 'small', 'u8', 3, [])]
+        chans = [('g', 'big', t, big, []), ('g', 'mib', 'f64', 2 ** 17, []), ('g', 'mib1', 'i32', 2 ** 18 + 1, []), ('g', 'small', 'u8', 3, []),
+                 ('g', 'stamps', 'ts', 2 ** 16 + rng.choice([1, 5000]), [])]
 
         def vfh(p, tt, n):
+            if tt == 'ts':
+                return [(3600000000 + i, (i * 2654435761) % 2 ** 64) for i in range(n)]
             dt = M.TYPES[tt][1]
             return (np.arange(n, dtype='i8') % 251).astype(dt)
         segs = M.build_file(rng, chans, nseg=1, nchunks=(1,), values_fn=vfh)
@@ -130,7 +137,11 @@ def run_case(case, ctx):
     dst_stream = istream = None
     try:
         ctx.count('defragment_calls')
-        if case['dest'] == 'path':
+        if case['dest'] in ('path', 'in-place'):
+            if case['dest'] == 'in-place':
+                dst_path = src_path          # defragment a file onto itself
+                if os.path.exists(src_path + '_index'):
+                    os.remove(src_path + '_index')
             TdmsWriter.defragment(src_path, dst_path, index_file=case['index'])
             with open(dst_path, 'rb') as f:
                 out = f.read()
@@ -138,10 +149,19 @@ def run_case(case, ctx):
             if case['index']:
                 with open(dst_path + '_index', 'rb') as f:
                     idx = f.read()
+            if case['dest'] == 'in-place':
+                os.remove(src_path)
+                if os.path.exists(src_path + '_index'):
+                    os.remove(src_path + '_index')
         else:
             dst_stream = io.BytesIO()
             istream = io.BytesIO() if case['index'] else False
-            TdmsWriter.defragment(io.BytesIO(blob), dst_stream, index_file=istream)
+            source_ = io.BytesIO(blob)
+            if case.get('source') == 'short-read-stream':
+                from checks.c03 import ShortReadStream
+                source_ = ShortReadStream(blob, 65536)      # an unbuffered stream that hands out at most 64 KiB per call
+                ctx.count('short_read_sources')
+            TdmsWriter.defragment(source_, dst_stream, index_file=istream)
             out = dst_stream.getvalue()
             idx = istream.getvalue() if case['index'] else None
     except Exception as ex:
